@@ -155,7 +155,15 @@ def run_timer(prog, which, max_polls=8):
     body = prog.find_fn(which)
     if body is None:
         raise Inconclusive('timer function not found: ' + which)
-    args = [period, cell] + ([clo] if 'send' in which else [])
+    if which.startswith('DerivedActorRef'):
+        # method of DerivedActorRef<T> { converter, inner }: (&self, period, msg)
+        dd = prog.crate.struct('DerivedActorRef')
+        if not dd or sorted(dd['fields']) != ['converter', 'inner']:
+            raise Inconclusive('DerivedActorRef fields changed')
+        dv = Agg('DerivedActorRef', [Opaque('converter', ident='converter') if k == 'converter' else cell for k in dd['fields']])
+        args = [Ref(st.alloc(dv), ()), period] + ([clo] if 'send' in which else [])
+    else:
+        args = [period, cell] + ([clo] if 'send' in which else [])
     outs = I.run_body(st, body, args)
     if len(outs) != 1 or outs[0].kind != 'ret':
         raise Inconclusive('%s did not return normally' % which)
